@@ -256,9 +256,22 @@ func runPromCase(c *Case) string {
 		if len(ops) < 1 || len(ops) > promMaxArity {
 			return "res " + c.id + " unsupported"
 		}
+		scrape0 := c.get("scrape0", "-") == "1" && licOn && promSetBypass != nil
+		if scrape0 {
+			// the pipeline is built and its collector registered and scraped BEFORE the licence is installed
+			// (registry.MustRegister right after building); the licence is read at subscription / scrape time, so once it
+			// is active the run and the exported counters are those of a pipeline built under the licence
+			promSetBypass(false)
+		}
 		obs, coll = eePipe(roprometheus.CollectorConfig{}, probe.Observable(), ops)
 		if coll == nil {
 			return "res " + c.id + " pipe-description-failed"
+		}
+		if scrape0 {
+			if m0, _ := gatherProm(coll, len(ops)); m0 != "off" {
+				return "res " + c.id + " _flag=exported-without-licence:" + m0
+			}
+			promSetBypass(true)
 		}
 	default:
 		obs = probe.Observable()
@@ -501,6 +514,11 @@ func genProm(tier string, seed int64, only string) []*Case {
 			id++
 			cases = append(cases, newCase(id, "kind", "prom", "pipe", pipe, "lic", lic, "mode", mode, "conc", conc,
 				"chain", chain, "sub", "7", "cut", cut, "srcs", srcs))
+			if lic == "on" && pipe == "ee" && (thorough || id%7 == 0) {
+				id++
+				cases = append(cases, newCase(id, "kind", "prom", "pipe", pipe, "lic", lic, "mode", mode, "conc", conc,
+					"chain", chain, "sub", "7", "cut", cut, "srcs", srcs, "scrape0", "1"))
+			}
 		}
 	}
 	configs := promOpConfigs(r)
